@@ -37,6 +37,27 @@ def obligations(tier):
             claim="qmesearch",
             expect_witnesses=w_search,
             ),
+        Obl("envelope_lines", "rpdt.c",
+            progs=[Prog("qmail-local.c", main_as="local_main", cut=["checkhome", "bouncexf"])],
+            repo=[u for u in MAIN_UNITS if u != "quote.c"], lib=["ideal_substdio.c", "arena_stralloc.c"],
+            defines={"ARENA_CAP": 72, "ARENA_SLOTS": 12}, sysrename=["_exit", "umask", "chdir", "time", "strlen"],
+            grid=[{"QL": a, "LL": b, "HL": b} for (a, b) in ((0, 0), (1, 1), (2, 2), (4, 3), (8, 4))],
+            unwind_default=lambda p: 40, backend="minisat", timeout=600,
+            claim="rpline dtline",
+            expect_witnesses=lambda p: ["lines_built"] + (["newline_in_local", "newline_in_domain"] if p["LL"] else [])
+                + (["newline_in_sender"] if p["QL"] >= 1 else []) + (["quoted_newline_in_sender"] if p["QL"] >= 2 else []),
+            ),
+        Obl("dotqmail_loop", "loop.c",
+            progs=[Prog("qmail-local.c", main_as="local_main",
+                        cut=["checkhome", "bouncexf", "qmesearch", "mailfile", "maildir", "mailprogram", "mailforward", "count_print"])],
+            repo=MAIN_UNITS, lib=["ideal_substdio.c", "arena_stralloc.c"],
+            defines={"ARENA_CAP": 72, "ARENA_SLOTS": 12}, sysrename=["_exit", "umask", "chdir", "time", "strlen", "calloc"],
+            grid=[{"B": b} for b in (1, 2, 3, 4, 5, 6)],
+            unwind=lambda p: {"fmt_ulong": 6},
+            unwind_default=lambda p: 40, backend="minisat", timeout=900,
+            claim="loop",
+            expect_witnesses=lambda p: ["all_done"],
+            ),
         Obl("mailprogram_codes", "prog.c", progs=[Prog("qmail-local.c", nomain=True)],
             repo=["wait_pid.c", "error_str.c"], lib=["ideal_substdio.c"],
             sysrename=["_exit", "lseek", "fork", "execv", "waitpid", "strlen"],
@@ -44,7 +65,7 @@ def obligations(tier):
             claim="mailprogram",
             ),
         Obl("bouncexf", "bounce.c", progs=[Prog("qmail-local.c", nomain=True)],
-            repo=["stralloc_pend.c", "error_str.c"], lib=["ideal_substdio.c", "ideal_getln.c", "arena_stralloc.c"],
+            repo=["stralloc_pend.c", "error_str.c", "substdio.c"], lib=["ideal_substdio.c", "ideal_getln.c", "arena_stralloc.c"],
             defines={"ARENA_CAP": 16, "ARENA_SLOTS": 2},
             sysrename=["_exit", "lseek", "strlen"],
             grid=[{"H": h} for h in (range(0, 9) if tier == "quick" else range(0, 12))],
@@ -54,7 +75,7 @@ def obligations(tier):
                 + (["same_line_in_body_ignored", "longer_line_not_a_loop"] if p["H"] >= 5 else []),
             ),
         Obl("mailforward", "forward.c", progs=[Prog("qmail-local.c", nomain=True)],
-            repo=["stralloc_pend.c", "error_str.c"], lib=["ideal_substdio.c", "ideal_getln.c", "arena_stralloc.c"],
+            repo=["stralloc_pend.c", "error_str.c", "substdio.c"], lib=["ideal_substdio.c", "ideal_getln.c", "arena_stralloc.c"],
             defines={"ARENA_CAP": 16, "ARENA_SLOTS": 2},
             sysrename=["_exit", "lseek", "strlen"],
             grid=[{"N": n} for n in (0, 1, 3)],
